@@ -13,8 +13,10 @@ import (
 
 func init() {
 	register(&Property{ID: "C28", Run: runC28, Mutants: []Mutant{
+		{Name: "module output buffers go back to a pool while callers still hold their bytes", File: "internal/wazero/module.go", Old: "\t\"strings\"\n\n\t\"wa-lang.org/wa/internal/3rdparty/wazero\"", New: "\t\"strings\"\n\t\"sync\"\n\n\t\"wa-lang.org/wa/internal/3rdparty/wazero\"", Old2: "func (p *Module) Close() error {\n\tvar err error\n", New2: "var outputBufferPool sync.Pool\n\nfunc (p *Module) Close() error {\n\tvar err error\n\toutputBufferPool.Put(&p.stdoutBuffer)\n", Expect: "pooled-buffer-escape"},
 		{Name: "a request's sizes written into the shared per-arch table entry", File: "internal/loader/loader.go", Old: "\t} else {\n\t\treturn &types.StdSizes{\n\t\t\tWordSize: p.cfg.WaSizes.WordSize,\n\t\t\tMaxAlign: p.cfg.WaSizes.MaxAlign,\n\t\t}\n\t}", New: "\t}\n\tsizes, _ := types.SizesFor(p.GetTargetArch()).(*types.StdSizes)\n\tsizes.WordSize = p.cfg.WaSizes.WordSize\n\tsizes.MaxAlign = p.cfg.WaSizes.MaxAlign\n\treturn sizes", Expect: "shared-state-write :: internal/types.gcArchSizes"},
 		{Name: "compile lock released before the module is rendered (not deferred)", File: "internal/backends/compiler_wat/compile.go", Old: "\tcompileMu.Lock()\n\tdefer compileMu.Unlock()\n", New: "\tcompileMu.Lock()\n", Expect: "shared-state-write"},
+		{Name: "compile lock taken only after the process-level current module was set", File: "internal/backends/compiler_wat/compile.go", Old: "\tcompileMu.Lock()\n\tdefer compileMu.Unlock()\n", New: "", Old2: "\twir.SetCurrentModule(p.module)\n", New2: "\twir.SetCurrentModule(p.module)\n\tcompileMu.Lock()\n\tdefer compileMu.Unlock()\n", Expect: "shared-state-write :: internal/backends/compiler_wat/wir.currentModule"},
 		{Name: "compile lock removed", File: "internal/backends/compiler_wat/compile.go", Old: "\tcompileMu.Lock()\n\tdefer compileMu.Unlock()\n", New: "", Expect: "shared-state-write :: internal/backends/compiler_wat/wir.currentModule"},
 		{Name: "package scopes appended to the universe again", File: "internal/types/scope.go", Old: "if parent != nil && parent != WaUniverse && parent != WzUniverse {", New: "if parent != nil && (parent != WaUniverse || parent != WzUniverse) {", Expect: "shared-state-write :: internal/types.WaUniverse written by internal/types.NewPackage"},
 		{Name: "formatter remembers the last file in a package variable", File: "internal/format/format.go", Old: "func File(vfs fs.FS, filename string, src interface{}) (text []byte, changed bool, err error) {", New: "var lastFile string\n\nfunc File(vfs fs.FS, filename string, src interface{}) (text []byte, changed bool, err error) {\n\tlastFile = filename", Expect: "shared-state-write :: internal/format.lastFile"},
@@ -136,6 +138,7 @@ func runC28(c *Ctx) {
 	if api == nil {
 		return
 	}
+	c28PooledBuffers(c, p, p.Pkg("internal/wazero"), p.Pkg("internal/app/appplay"), p.Pkg("api"), p.Pkg("internal/loader"), p.Pkg("internal/backends/compiler_wat"))
 	p.BuildSSA()
 	var roots []*ssa.Function
 	sc := api.Types.Scope()
@@ -194,7 +197,27 @@ func runC28(c *Ctx) {
 			g = holdsLock(caller)
 			lockHolders[caller] = g
 		}
-		return g != nil // edges out of a lock-holding function are protected
+		if g == nil {
+			return false
+		}
+		// the lock is taken in the entry block: calls made before it are not protected
+		if e.Site != nil && len(caller.Blocks) > 0 && e.Site.Block() == caller.Blocks[0] {
+			lockAt, siteAt := -1, -1
+			for i, ins := range caller.Blocks[0].Instrs {
+				if call, ok := ins.(*ssa.Call); ok && lockAt < 0 {
+					if n := calleeName(&call.Call); n == "sync.Mutex.Lock" || n == "sync.RWMutex.Lock" {
+						lockAt = i
+					}
+				}
+				if ins == ssa.Instruction(e.Site) {
+					siteAt = i
+				}
+			}
+			if siteAt >= 0 && lockAt >= 0 && siteAt < lockAt {
+				return false
+			}
+		}
+		return true // edges out of a lock-holding function, made after the Lock, are protected
 	}
 	pred, order := p.Reachable(roots, skip)
 	c.Count("functions_reachable_without_a_held_lock", len(order))
